@@ -18,7 +18,7 @@
  "name": "htree_dump_int_node",
  "props": ["C06"],
  "level": "U/iter",
- "tier": "wip",
+ "tier": "quick",
  "harness": "h_htree_int",
  "includes": ["debugfs", "lib/ss", "misc"],
  "replace": ["htree_dump_int_block", "htree_dump_leaf_node"],
@@ -38,7 +38,7 @@
  "name": "htree_dump_leaf_node",
  "props": ["C06"],
  "level": "U/iter",
- "tier": "wip",
+ "tier": "quick",
  "harness": "h_htree_leaf",
  "includes": ["debugfs", "lib/ss", "misc"],
  "sources": ["lib/ext2fs/dir_iterate.c"],
